@@ -16,7 +16,7 @@ reg("C19",
                  "Proofs/RangeParseFacts.v", "Proofs/C19_Proofs.v", "Proofs/C19_CheckFacts.v",
                  "Properties/C19.v", "Check/C19_Check.v"],
     codes={1: "model-mismatch", 2: "property-checker-rejects-impl", 3: "mismatch+property", 4: "impl-panic",
-           5: "impl-hang", 6: "split-union-loses-inner-boundaries"},
+           5: "impl-hang", 6: "split-union-loses-inner-boundaries", 7: "next-previous-wrap-around"},
     rule="four input families, 30/30/30/10 %: (meth) a range (constructed: boundary/random 64-bit bounds, 4 flag combinations, "
          "open-ended; some raw ranges with end <= start) x a number at/around its bounds x a size (0, small, own width, the edge "
          "of 2^64 and one past it) x an IsNext candidate (the exact next range as a fresh value, or a neighbour: flag flipped, "
